@@ -564,6 +564,9 @@ def selftest_for(prop, repo):
         tmp = tempfile.mkdtemp(prefix="vx_selftest_")
         try:
             shutil.copytree(os.path.join(repo, "src"), os.path.join(tmp, "src"))
+            for extra in ("Cargo.toml", "Cargo.lock"):
+                if os.path.exists(os.path.join(repo, extra)):
+                    shutil.copy(os.path.join(repo, extra), os.path.join(tmp, extra))
             r = sh(["patch", "-p1", "-s", "--no-backup-if-mismatch", "-i", patch], cwd=tmp)
             if r.returncode != 0:
                 rows.append(dict(change=name, applied=False, detected=None))
@@ -576,8 +579,18 @@ def selftest_for(prop, repo):
                 except Rejected as r:
                     raise Undecided("rejected: " + r.msgs)
                 f = failed_for(ss, prop)
-                rows.append(dict(change=name, applied=True, detected=bool(f), failed=[x["label"] or "implicit" for x in f][:3],
-                                 undecided=("resource limit" if (ss.rlimit and not f) else None)))
+                und = None
+                if not f:
+                    import kani_engine
+                    if kani_engine.HARNESSES.get(prop) and os.path.exists(os.path.join(tmp, "Cargo.toml")):
+                        kr = kani_engine.run_for(prop, tmp, "quick")
+                        f = [dict(label="kani:" + k["harness"]) for k in kr.get("failed", [])]
+                if not f:
+                    try:
+                        decide(prop, ss, "quick")       # would this tree be reported OK?  (raises Undecided otherwise)
+                    except Undecided as e2:
+                        und = str(e2)[:200]
+                rows.append(dict(change=name, applied=True, detected=bool(f), failed=[x["label"] or "implicit" for x in f][:3], undecided=und))
             except Undecided as e:
                 rows.append(dict(change=name, applied=True, detected=False, undecided=str(e)[:200]))
         finally:
@@ -701,7 +714,8 @@ def main():
         st = None
         if tier == "thorough" and not new:
             st = selftest_for(p, a.repo)
-            missed = [r for r in st if r["applied"] and not r["detected"]]
+            # a kept change that is neither reported nor undecided would be reported OK: that is a loss of discriminating power
+            missed = [r for r in st if r["applied"] and not r["detected"] and not r.get("undecided")]
             if missed:
                 # the check has lost discriminating power it is recorded to have: its verdict is not to be relied on
                 print("UNDECIDED property=%s reason=self-test: kept property-breaking change(s) %s no longer fail an obligation of %s" %
@@ -723,8 +737,9 @@ def main():
             labelled, fns, implicit = obligations_for(sess, p)
             stx = ""
             if st is not None:
-                stx = " self_test=%d/%d changes reported (%d not applicable)" % (
-                    sum(1 for r in st if r["applied"] and r["detected"]), sum(1 for r in st if r["applied"]), sum(1 for r in st if not r["applied"]))
+                stx = " self_test=%d/%d changes reported, %d undecided, none accepted (%d not applicable)" % (
+                    sum(1 for r in st if r["applied"] and r["detected"]), sum(1 for r in st if r["applied"]),
+                    sum(1 for r in st if r["applied"] and not r["detected"] and r.get("undecided")), sum(1 for r in st if not r["applied"]))
             print("OK property=%s functions=%d labelled_obligations=%d implicit_sites=%d canaries=%d/%d verus_wall=%.1fs%s%s" % (
                 p, len(fns), len(labelled), sum(implicit.values()), sess.canaries_failed, sess.n_canaries, sess.main["wall"],
                 " (cached)" if sess.main.get("cache_hit") else "", stx))
